@@ -170,6 +170,16 @@ class Builder:
         self.symbols[name] = arr
         return SymSeq(arr, 0, ln, kind)
 
+    def symstr(self, name, n, alphabet):
+        """A string of concrete length n whose characters are symbolic, each drawn from `alphabet`."""
+        arr = z3.Array(name, z3.IntSort(), z3.IntSort())
+        self.symbols[name] = arr
+        for i in range(n):
+            c = z3.Select(arr, i)
+            self.st.pc.append(z3.Or(*[c == ord(a) for a in alphabet]))
+            self.symbols[f"{name}[{i}]"] = c
+        return SymSeq(arr, 0, n, "str")
+
     def symmap(self, name, values):
         arr = z3.Array(name, z3.IntSort(), z3.IntSort())
         self.symbols[name] = arr
@@ -321,7 +331,10 @@ def materialize(engine: Engine, B: Builder, st: State, value, model, seen=None):
             for i in range(n):
                 x = ev(z3.Select(v.arr, off + i))
                 data.append(x % 256 if isinstance(x, int) else 0)
-            return {"k": "bytes" if v.kind == "bytes" else "str", "v": data}
+            if v.kind != "bytes":
+                raw = [ev(z3.Select(v.arr, off + i)) for i in range(n)]
+                return {"k": "str", "v": "".join(chr(x % 0x110000) if isinstance(x, int) else "?" for x in raw)}
+            return {"k": "bytes", "v": data}
         if isinstance(v, Rope):
             data = []
             for c in v.chunks:
